@@ -44,9 +44,9 @@ var standinTable = map[string][]struct{ name, file, pkgdir, test, stands, boundQ
 	}},
 	"C04": {{
 		name: "header-value-normalisation", file: "c04_normalize_test.go.txt", pkgdir: "internal", test: "TestGovcStandinC04",
-		stands:        "normalizeHeaderValue identifies two values of a nominated request header only up to whitespace, list order and ASCII case (never two values that differ otherwise, e.g. in a byte that is not valid UTF-8), and is idempotent",
-		boundQuick:    "8 fields (one per normalisation class) x every value of length <= 4 over {a, A, b, ',', SP, HTAB, '*', 0xff, 0xfe} (7381 values)",
-		boundThorough: "8 fields (one per normalisation class) x every value of length <= 6 over {a, A, b, ',', SP, HTAB, '*', 0xff, 0xfe} (597871 values)",
+		stands:        "normalizeHeaderValue identifies two values of a nominated request header only up to whitespace, list order and ASCII case (never two values that differ otherwise, e.g. in a byte that is not valid UTF-8), and is idempotent; for the weighted fields (Accept, Accept-Language, Accept-Encoding, Accept-Charset, TE) it identifies two lists only if they mean the same under an independent reading of RFC 9110 12.4.2 (members with weight zero in any spelling dropped, weight 1 implicit, q/Q and trailing zeros, parameter order, the best-ranked of several members with one name) - a member with a small non-zero weight is never forgotten",
+		boundQuick:    "8 fields (one per normalisation class) x every value of length <= 4 over {a, A, b, ',', SP, HTAB, '*', 0xff, 0xfe} (7381 values), plus 5 weighted fields x every list of <= 2 members out of 3 names x 16 parameter/weight spellings (2353 lists): 70,813 cases",
+		boundThorough: "8 fields (one per normalisation class) x every value of length <= 6 over {a, A, b, ',', SP, HTAB, '*', 0xff, 0xfe} (597871 values), plus 5 weighted fields x every list of <= 3 members out of 3 names x 16 parameter/weight spellings (112,945 lists)",
 	}, {
 		name: "index-json-round-trip", file: "c19_refs_roundtrip_test.go.txt", pkgdir: "internal", test: "TestGovcStandinC19",
 		stands:        "json.Unmarshal(json.Marshal(index)) gives back exactly the same references (ResponseRef.UnmarshalJSON and encoding/json are outside the contracts; MarshalJSON is under contract)",
